@@ -28,7 +28,7 @@ ASSUMPTIONS = [
     "EML exporter: qualified attributes, prefixes and namespace maps are not part of its contract (it predates them); the "
     "boilerplate attributes it adds to an eml root are ignored",
 ]
-REQUIRED = ["dense_special_cases", "prefix_pair_cases", "vocabulary_attribute_cases", "vocabulary_content_cases", "exported_again_after_in_place_edits", "fragment_exports", "general_exports", "eml_exports", "expat_accepts", "libxml2_accepts", "reimports", "special:<:content", "special:&:content",
+REQUIRED = ["failed_exports_before_ordinary_ones", "exports_without_namespace_declarations", "exports_at_a_deeper_level", "dense_special_cases", "prefix_pair_cases", "vocabulary_attribute_cases", "vocabulary_content_cases", "exported_again_after_in_place_edits", "fragment_exports", "general_exports", "eml_exports", "expat_accepts", "libxml2_accepts", "reimports", "special:<:content", "special:&:content",
             "special:\":attribute", "special:<:attribute", "special:&:attribute", "special:&:extras", "special:<:tail", "special:&:uri",
             "trees_with_nested_declarations"]
 EXHAUSTIVE = {"quick": False, "thorough": False}
@@ -146,10 +146,19 @@ def norm(s):
     return (s or "").strip()
 
 
-def judge_general(ctx, root, history=None):
-    wit = lambda: dict(history or {}, tree=snapshot.to_plain(root), exporter="metapype_io.to_xml")
+def judge_general(ctx, root, history=None, level=None, skip_ns=False):
+    """level: the document written at a deeper indentation (for placing it inside a wrapper element); skip_ns: the text-fragment form
+    without namespace declarations - judged on trees that need none (no prefixes; the xml prefix is bound by definition)."""
+    wit = lambda: dict(history or {}, tree=snapshot.to_plain(root), exporter="metapype_io.to_xml", level=level, skip_ns=skip_ns)
     try:
-        out = metapype_io.to_xml(root)
+        if skip_ns:
+            out = metapype_io.to_xml(root, skip_ns=True)
+            ctx.count("exports_without_namespace_declarations")
+        elif level is not None:
+            out = metapype_io.to_xml(root, level=level) if level % 2 else metapype_io.to_xml(root, None, level)
+            ctx.count("exports_at_a_deeper_level")
+        else:
+            out = metapype_io.to_xml(root)
     except Exception as e:
         ctx.violation(f"export-raises:{type(e).__name__}@{emlkit.raise_site(e)}", f"metapype_io.to_xml raised {e!r}", wit())
         return
@@ -169,7 +178,8 @@ def judge_general(ctx, root, history=None):
         a, b, p = stack.pop()
         where = f"{p}{a.name}"
         for field, x, y in (("name", a.name, b.name), ("prefix", a.prefix, b.prefix), ("attributes", dict(a.attributes), dict(b.attributes)),
-                            ("qualified-attributes", dict(a.extras), dict(b.extras)), ("namespace-bindings", dict(a.nsmap), dict(b.nsmap)),
+                            ("qualified-attributes", dict(a.extras), dict(b.extras)),
+                            ("namespace-bindings", {} if skip_ns else dict(a.nsmap), dict(b.nsmap)),
                             ("content", norm(a.content), norm(b.content)), ("tail", norm(a.tail), norm(b.tail))):
             if x != y:
                 ctx.violation(f"roundtrip-differs:{field}", f"{where}: {field} {x!r} comes back as {y!r}", wit())
@@ -323,6 +333,63 @@ def dense_and_prefix_sweep(ctx):
                 emlkit.discard(root)
 
 
+def a_failed_export(ctx):
+    """An export that dies half-way (a tail that is a number, a child that is not a node, a chain deeper than the recursion limit) is
+    followed by ordinary exports of ordinary trees - every tree exported from here on in this process comes after it."""
+    import sys
+    for kind in ("int-tail", "non-node-child", "too-deep"):
+        root = Node("eml")
+        root.prefix = "eml"
+        root.add_namespace("eml", "https://eml.ecoinformatics.org/eml-2.2.0")
+        root.add_namespace("xsi", "http://www.w3.org/2001/XMLSchema-instance")
+        ds = Node("dataset")
+        root.add_child(ds)
+        inner = Node("title", content="t")
+        inner.add_namespace("stmml", "http://www.xml-cml.org/schema/stmml-1.2")
+        ds.add_child(inner)
+        deep = Node("value", content="v")
+        inner.add_child(deep)
+        if kind == "int-tail":
+            deep.tail = 5
+        elif kind == "non-node-child":
+            deep.children.append("not a node")
+        else:
+            cur = deep
+            for _ in range(sys.getrecursionlimit() + 50):
+                nxt = Node("value")
+                cur.children.append(nxt)
+                nxt.parent = cur
+                cur = nxt
+        for exporter in (metapype_io.to_xml, export.to_xml):
+            try:
+                exporter(root)
+                ctx.count("exports_expected_to_fail_that_did_not")
+            except BaseException as e:
+                if isinstance(e, (KeyboardInterrupt, SystemExit)) or type(e).__name__ == "CaseTimeout":
+                    raise
+                ctx.count("failed_exports_before_ordinary_ones")
+        deep.children.clear()
+        emlkit.discard(root)
+    # ... and right afterwards a namespaced document, exported and read back
+    ok = Node("eml")
+    ok.prefix = "eml"
+    ok.add_namespace("eml", "https://eml.ecoinformatics.org/eml-2.2.0")
+    ok.add_namespace("xsi", "http://www.w3.org/2001/XMLSchema-instance")
+    ok.add_extras("xsi:schemaLocation", "https://eml.ecoinformatics.org/eml-2.2.0 eml.xsd")
+    d = Node("dataset")
+    ok.add_child(d)
+    u = Node("unit", content="m")
+    u.prefix = "stmml"
+    u.add_namespace("stmml", "http://www.xml-cml.org/schema/stmml-1.2")
+    d.add_child(u)
+    judge_general(ctx, ok, {"after_failed_exports": True})
+    emlkit.discard(ok)
+
+
+def no_prefix_in_use(root):
+    return all(n.prefix is None and all(k.startswith("xml:") for k in n.extras) for n in snapshot.walk(root))
+
+
 def run(ctx, params):
     rng = ctx.rng
     if params.get("salt", 0) == 0:
@@ -330,6 +397,8 @@ def run(ctx, params):
         ctx.case(vocabulary_attribute_sweep, ctx, seconds=600.0)
         ctx.case(vocabulary_content_sweep, ctx, seconds=600.0)
     for i in range(params["trees"]):
+        if i == params["trees"] // 3:
+            ctx.case(a_failed_export, ctx, seconds=120.0)
         for_eml = i % 3 == 2
         root = build(rng, rng.choice([1, 2, 4, 8, 16, 40]), for_eml)
         count_specials(ctx, root)
@@ -343,6 +412,22 @@ def run(ctx, params):
             ctx.case(judge_general, ctx, root)
             if i % 3 == 0:
                 ctx.case(judge_fragments, ctx, root)
+            if i % 5 == 1:
+                ctx.case(judge_general, ctx, root, None, rng.choice([1, 2, 3, 7]))
+        if i % 5 == 3:
+            # text fragments: a tree that uses no prefix (its qualified attributes are xml:lang, xml:space, xml:id), exported without
+            # namespace declarations
+            frag = build(rng, rng.choice([1, 3, 8]), True)
+            for n in snapshot.walk(frag):
+                n.prefix = None
+                for k in list(n.extras):
+                    del n.extras[k]
+                if rng.random() < 0.5:
+                    k = rng.choice(["xml:lang", "xml:space", "xml:id", "xml:base"])
+                    n.add_extras(k, f"x{id(n)}" if k == "xml:id" else rng.choice(["en", "preserve", "x1", "a<b&c"]))     # (an xml:id is a name, unique in its document)
+            if no_prefix_in_use(frag):
+                ctx.case(judge_general, ctx, frag, None, None, True)
+            emlkit.discard(frag)
         if i % 4 == 0:
             # the same objects exported again after an editor changed them in place (attribute values, content, children)
             hist = {"before": snapshot.to_plain(root)}
@@ -364,6 +449,8 @@ def run(ctx, params):
 
 
 def replay(ctx, witness):
+    if witness.get("after_failed_exports"):
+        a_failed_export(ctx)
     if "before" in witness:
         root = snapshot.from_plain(Node, witness["before"])
         for phase in range(2):
@@ -376,6 +463,6 @@ def replay(ctx, witness):
     if witness["exporter"] == "export.to_xml":
         judge_eml(ctx, root)
     else:
-        judge_general(ctx, root)
+        judge_general(ctx, root, None, witness.get("level"), bool(witness.get("skip_ns")))
     ctx.distinct(1)
     ctx.distinct(2)
